@@ -453,6 +453,15 @@ def iadd (a b : RSys) : RSys := ⟨a.rxns ++ b.rxns, odictUpdate a.substs b.subs
 
 def iaddRxns (a : RSys) (l : List Rxn) : RSys := ⟨a.rxns ++ l, a.substs⟩
 
+/-- the right operand of `+` / `+=` as ANY iterable (list, tuple, generator, `filter`, `map`, `iter`, `reversed`, dict values, …):
+    it is materialised ONCE (`list(other)`), then validated (`all(isinstance(r, Reaction) …)`: an item that is no Reaction — `none`
+    here — makes the whole operation raise ValueError, `self` untouched), then used. The container type is not observable. -/
+def addItems (a : RSys) (items : List (Option Rxn)) : Option RSys :=
+  if items.all Option.isSome then some (addRxns a (items.filterMap id)) else none
+
+def iaddItems (a : RSys) (items : List (Option Rxn)) : Option RSys :=
+  if items.all Option.isSome then some (iaddRxns a (items.filterMap id)) else none
+
 def listPyEq : List Rxn → List Rxn → Bool
   | [], [] => true
   | a :: s, b :: t => a.pyEq b && listPyEq s t
@@ -500,7 +509,16 @@ def asPerSubstanceArrayDict {α : Type} (s : RSys) (cont : List (String × α)) 
     | none => .error .keyError
     | some l => .ok l     -- `len == ns` by construction
 
-/-- `as_per_substance_array(cont: flat sequence)`: only the size check -/
+/-- the same for a `collections.defaultdict`: `cont[k]` CREATES a missing key with the default instead of raising
+    (the documented way to call `upper_conc_bounds`); the `raise_on_unk` scan comes first -/
+def asPerSubstanceArrayDefaultDict {α : Type} (s : RSys) (cont : List (String × α)) (dflt : α) (raiseOnUnk : Bool := false) :
+    Except ContErr (List α) :=
+  if raiseOnUnk && cont.any (fun kv => !s.keys.contains kv.1) then .error .keyError
+  else asPerSubstanceArrayDict s
+    (cont ++ (s.keys.filter fun k => !(cont.any fun kv => kv.1 == k)).map fun k => (k, dflt)) false
+
+/-- `as_per_substance_array(cont: flat sequence)`: only the size check (list, tuple, deque, ndarray alike; one-shot iterators
+    are not array_like: numpy wraps them into a 0-d object array — TypeError for the default float dtype) -/
 def asPerSubstanceArrayList {α : Type} (s : RSys) (cont : List α) : Except ContErr (List α) :=
   if cont.length = s.ns then .ok cont else .error .valueError
 
